@@ -290,7 +290,6 @@ func (sc c06Scenario) fix(s Shape, prefix string) func(dk, cr string) (int, bool
 	}
 }
 
-
 func checkC06(c *Ctx) {
 	r := c.R
 	r.Explain = "Validation of concrete bodies quantifies over values and is not decided. Decided: the agreement of the schema mapping with the documented wire mapping, by abstract evaluation of the OpenAPI generator's own conversion code over the finite field-shape domain (nothing is executed). R06a: convertField is evaluated for each of the 90 field shapes (18 kinds x implicit/optional/oneof-member/repeated/map) under every annotation scenario that changes the JSON type (int64_encoding, enum_encoding, bytes_encoding, timestamp_format, nullable, empty_behavior=NULL), with libopenapi's constructors modelled as identities; the resulting abstract schema (type list, items, additionalProperties, oneOf) must be the JSON type the documented mapping puts on the wire for that shape. R06c: convertScalarField, which ignores repeated/map/nullable, is called only from element contexts (frozen table). R06d: schema property names and the keys the Go server's encoders write are spelled by the same accessors (JSONName, flatten prefix + JSONName, discriminator, variant JSONName). R06e: well-known types with a special proto3 JSON form are published in that form. R06f: every JSON arm of the server's marshalResponse / bindDataBasedOnContentType and of the Go client's marshalRequest / unmarshalResponse consults the message's own (Un)MarshalJSON before protojson. R06g: responses 200/400/default reference the RPC's output, ValidationError and Error, and the built-in schemas list exactly the JSON names of the sebuf.http error messages. Not decided: numeric ranges and formats of concrete values, NaN/Infinity strings for float fields, additional-property strictness, satisfiability of component schemas."
@@ -306,7 +305,7 @@ func checkC06(c *Ctx) {
 		c19StringTags(c, c.oaDecls(pkgOpenAPI), pk.TypesInfo, "R06i")
 	}
 
-	r.Rule("R06j", "codec emitters are called on every successful path of generateFile: a message described by the annotated schema gets its codec also in a file without services (shared with C05/R05j)", 16)
+	r.Rule("R06j", "codec emitters are called on every successful path of generateFile: a message described by the annotated schema gets its codec also in a file without services (shared with C05/R05j)", 2)
 	codecEmittersUnconditional(c, "R06j")
 
 	conv := c.P.Func(pkgOpenAPI, "Generator.convertField")
@@ -825,4 +824,3 @@ func c06Responses(c *Ctx) {
 }
 
 func init() { props["C06"] = checkC06 }
-
